@@ -356,8 +356,6 @@ def oracle(c, r, root, vec_hex, unit_hex, stats, skip_inst=False):
         return "priors_ordered_by_id is not creation order: %s" % r["ids"]
     if len(r["upaths"]) != n:
         return "unique_prior_paths has %d entries for %d parameters" % (len(r["upaths"]), n)
-    if not r["paths_resolve"]:
-        return "an advertised path does not resolve to its prior"
     for p in r["upaths"]:
         if p not in r["paths"]:
             return "unique path %s is not among paths" % ".".join(p)
@@ -375,6 +373,8 @@ def oracle(c, r, root, vec_hex, unit_hex, stats, skip_inst=False):
             return "walking the model along the advertised path %s of parameter %s with collection[name] / getattr finds %s; " \
                    "-1: not a parameter, -2: raised" % (".".join(p), adv, got_item)
         stats["path-resolution:compared"] = stats.get("path-resolution:compared", 0) + 1
+    if not r["paths_resolve"]:
+        return "an advertised path does not resolve to its prior"
     if skip_inst:
         return None
     if "exc" in r["inst"]:
